@@ -137,7 +137,7 @@ class Gen:
         """A non-polynomial operand: Python scalar, numpy scalar, list, ndarray."""
         rng = self.rng
         kind = rng.choice(KINDS) if kind is None else kind
-        form = rng.choice(["py", "py", "np", "list", "arr", "arr", "arrF", "arrS", "arrRO"])
+        form = rng.choice(["py", "py", "np", "list", "arr", "arr", "arrF", "arrS", "arrRO", "arrBE"])
         if shape is None:
             shape = () if form in ("py", "np") else self.shape(maxdim)
         shape = tuple(shape)
@@ -158,7 +158,8 @@ class Gen:
         data = self.array_data(shape, kind)
         if form == "list":
             return {"k": "list", "data": nested_map(jnum, data)}
-        layout = {"arr": "C", "arrF": "F", "arrS": "strided", "arrRO": "readonly"}[form]
+        layout = {"arr": "C", "arrF": "F", "arrS": "strided", "arrRO": "readonly",
+                  "arrBE": "swapped"}[form]
         dtype = {"int": "int64", "float": "float64", "complex": "complex128", "bool": "bool"}[kind]
         return {"k": "arr", "data": nested_map(jnum, data), "dtype": dtype,
                 "shape": list(shape), "layout": layout}
@@ -240,6 +241,9 @@ def build(spec):
         elif layout == "readonly":
             arr = arr.copy()
             arr.setflags(write=False)
+        elif layout == "swapped" and arr.dtype.itemsize > 1:
+            # the same values stored in non-native byte order
+            arr = arr.astype(arr.dtype.newbyteorder(">" if arr.dtype.byteorder in ("=", "<", "|") else "<"))
         return arr
     if kind == "poly":
         dtype = spec.get("dtype") or DTYPE_OF_KIND[spec["kind"]]
